@@ -145,6 +145,8 @@ import itertools
 _meta_seq = itertools.count()
 
 def run_tlc(module, cfg, workers=1, env_extra=None, timeout=1800, xmx="3g", extra_args=()):
+    if os.environ.get("VERIF_TIER_EFFECTIVE") == "thorough":
+        timeout = max(timeout, 5 * 3600)      # the thorough tier is allowed to take its time
     os.makedirs(WORK + "/tlc", exist_ok=True)
     meta = "%s/tlc/m%d_%d_%d" % (WORK, os.getpid(), int(time.time() * 1000) % 100000000, next(_meta_seq))
     env = tlc_env(xmx)
